@@ -1054,7 +1054,7 @@ func c09Core(c *Ctx, stream string) {
 	piece := func() string {
 		return PickS(r, []string{"", "", "+", "-", "x", " "}) + PickS(r, digits) + PickS(r, unitsuf)
 	}
-	for k := 0; k < c.Budget(500, 10000); k++ {
+	for k := 0; k < c.Budget(300, 10000); k++ {
 		var f string
 		switch r.Intn(6) {
 		case 0:
@@ -1113,7 +1113,7 @@ func c09Core(c *Ctx, stream string) {
 	for _, n := range allNames {
 		for _, pool := range pools {
 			for _, v := range pool {
-				if c.Tier == "thorough" || r.P(1, 6) {
+				if c.Tier == "thorough" || r.P(1, 8) {
 					c09Set(c, "set-matrix", n, v)
 				}
 			}
@@ -1121,7 +1121,7 @@ func c09Core(c *Ctx, stream string) {
 	}
 	// --- applyURL
 	genQuery := c09QueryGen(r)
-	for k := 0; k < c.Budget(600, 10000); k++ {
+	for k := 0; k < c.Budget(400, 10000); k++ {
 		c09URL(c, "url-random", genQuery())
 	}
 	for _, q := range []string{"", "%", "a=%zz", "n=5&n=x", "n=x&n=5", "tf=99999999999999999999", "ti=1:99999999999999999999", "=", "&&", "n", "n=", "trim=maybe", "nf=nan", "sort=zz", "g=lines", "g=zz"} {
@@ -1139,7 +1139,7 @@ func c09Core(c *Ctx, stream string) {
 		}
 		c09Session(c, "session-pool", p, []string{l}, false)
 	}
-	for k := 0; k < c.Budget(600, 20000); k++ {
+	for k := 0; k < c.Budget(400, 20000); k++ {
 		p := c09Profile(r, false)
 		var lines []string
 		for j := 1 + r.Intn(4); j > 0; j-- {
